@@ -6,6 +6,7 @@
    2 DAMAGE: frames damaged_frame obs* has_tree [tree]    obs = procs objs outcome; for in-block
              damage the block's message tree follows (code 4: the L1 model does not say Err on it)
    3 WHOLE : frames obs*                  a complete valid file
+   4 TRAILER: as DAMAGE; zlib stream without its adler32 trailer, data intact (see check_trailer)
    outcome: 0 Err()=nil, 1 Err()<>nil, 2 process crashed, 3 hang.
    codes: 1 = model <> implementation, 2 = property oracle fails on the observation,
           3 = the runs do not partition 0..size, 0 = case does not parse. *)
@@ -103,12 +104,39 @@ Definition check_whole : P (list Z) :=
             && valid_file fs && negb (Nat.eqb (length obs) 0) in
   ret (code_if j1 1 ++ code_if j2 2)%list.
 
+(* 4 TRAILER: like DAMAGE, for a zlib stream whose adler32 trailer (and last byte) is missing while
+   the data are intact.  compress/zlib reports it, czlib does not when the inflated length equals
+   raw_size.  The property is satisfied either way: an error after the intact blocks, or success
+   with every object (nothing invented, nothing lost).  The frames carry the strict inflater's
+   verdict (InflErr); the lenient reading replaces it by "inflates to raw_size". *)
+Definition fix_trailer (f : frame obj) : frame obj :=
+  match f_blob f with
+  | BlobOk (Blob (EncZlib rs InflErr) p) =>
+      Frame (f_pfx f) (f_hlen f) (f_hdr f) (f_blen f) (BlobOk (Blob (EncZlib rs (InflOk rs)) p))
+  | _ => f
+  end.
+
+Definition check_trailer : P (list Z) :=
+  fs <- pframes ;; di <- pnat ;; obs <- plist pobs ;; _ <- pbool ;;
+  let total := total_size fs in
+  let fs' := (firstn di fs ++ match nth_error fs di with Some f => [fix_trailer f] | None => [] end
+              ++ skipn (S di) fs)%list in
+  let strict := scan current fs total in
+  let lenient := scan current fs' total in
+  let j1 := forallb (fun '(_, objs, oc) => agrees strict objs oc || agrees lenient objs oc) obs in
+  let j2 := forallb (fun '(_, objs, oc) =>
+                       ((oc =? 1) && objs_eqb objs (objs_of (firstn di fs)))
+                       || ((oc =? 0) && objs_eqb objs (objs_of fs'))) obs
+            && valid_file fs' && negb (Nat.eqb (length obs) 0) in
+  ret (code_if j1 1 ++ code_if j2 2)%list.
+
 Definition check_case (t : toks) : list Z :=
   match t with
   | tag :: rest =>
       let p := if tag =? 2 then check_trunc       (* zigzag: 1 -> 2, 2 -> 4 *)
                else if tag =? 4 then check_damage
                else if tag =? 6 then check_whole
+               else if tag =? 8 then check_trailer
                else pfail in
       match parse_all p rest with Some codes => codes | None => [0] end
   | [] => [0]
